@@ -2,6 +2,8 @@
   Driver for the `fspec` suite (C05): `forest spec <op> <labels…>` answers with the CONTENT
   (labels erased, roots in canonical order) of the SPECIFICATION (`Model/FspecSpec.lean`, rule
   `Keep.earlier`) applied to the current session forest; the session state is not changed.
+  Since the second round also `clone`, the attribute / namespace map updates, the value setters
+  and `text_content_set` (`Model/FspecSpec2.lean`).
   `forest specx <op> <labels…>` answers `1` iff the model's own result of the call is, handle
   for handle, the specification with xot's survivor rule (`Keep.resident`): a model-internal
   cross-check of the statements proved in `Props/C05.lean`.
@@ -59,6 +61,36 @@ def specOf (s : FState) (ws : List String) (resident : Bool) : Option (Forest ×
   | ["replace", a, b] => do
       let o ← node a; let n ← node b
       some (if resident then specReplaceX o n f else specReplace Keep.earlier o n f, (f.replace o n).1)
+  | ["clone", a] => do
+      let n ← node a
+      some (specClone n f, (f.cloneNode n).1)
+  | ["map_insert", "attr", a, k, v] => do
+      let e ← node a; let entry := Value.attribute (← k.toNat?) (← decStr v)
+      some (specMapInsert .attributes e entry f, (f.mapInsert .attributes e entry).1)
+  | ["map_insert", "ns", a, k, v] => do
+      let e ← node a; let entry := Value.namespace (← k.toNat?) (← v.toNat?)
+      some (specMapInsert .namespaces e entry f, (f.mapInsert .namespaces e entry).1)
+  | ["map_remove", kind, a, k] => do
+      let e ← node a; let mk ← mapKind? kind; let key ← k.toNat?
+      some (specMapRemove mk e key f, (f.mapRemove mk e key).1)
+  | ["set_name", a, nm] => do
+      let n ← node a; let nm ← nm.toNat?
+      some (specSetValue n (.element nm) f, (f.setElementName n nm).1)
+  | ["set_text", a, v] => do
+      let n ← node a; let t ← decStr v
+      some (specSetValue n (.text t) f, (f.setText n t).1)
+  | ["set_comment", a, v] => do
+      let n ← node a; let t ← decStr v
+      some (specSetValue n (.comment t) f, (f.setComment n t).1)
+  | ["set_pi_data", a, v] => do
+      let n ← node a
+      let d ← (if v == "-" then some none else (decStr v).map some)
+      match f.value? n with
+      | some (.pi tg _) => some (specSetValue n (.pi tg (piData d)) f, (f.setPiData n d).1)
+      | _ => none
+  | ["text_content_set", a, v] => do
+      let n ← node a; let t ← decStr v
+      some (specTextContentSet n t f, (f.textContentSet n t).1)
   | _ => none
 
 def handleFspec (s : FState) (ws : List String) : Option String :=
